@@ -96,7 +96,7 @@ def _worker(args):
                 url = coll_url + enc(name) + ".ics"
                 body = B.ics("c16-%d" % stats["cases"], "name test")
                 r = s.req("PUT", url, {"Content-Type": B.CT_ICS}, body)
-                if dav.effective_status(r) not in (201, 204):
+                if dav.effective_status(r) not in (200, 201, 204):
                     stats["names_refused"] += 1
                     stats["outcomes"].add(("put", nclass, dav.effective_status(r)))
                     continue
@@ -230,7 +230,7 @@ def _worker(args):
                 rm = s.req("PUT", url + mname, {"Content-Type": B.CT_VCF if isab else B.CT_ICS}, B.CARD_BODIES["K"] if isab else B.ics("c16-kind-%s" % ckind, "kind test"))
                 rn = s.req("MKCOL", url + "nested/")
                 want = {url.rstrip("/")}
-                if dav.effective_status(rm) in (201, 204):
+                if dav.effective_status(rm) in (200, 201, 204):
                     want.add(url + mname)
                 if rn.status == 201:
                     want.add(url + "nested")
